@@ -262,6 +262,10 @@ def ifaceNew (fl : Flavour) (c : Nat) (name : String) (nid : Option Nid) (parent
   let t ← need itype .topology
   M.guard (validName .connectionPoint name) .value
   let kw ← ofExcept (validateProps props)
+  -- add_interface_sliver
+  match parent with
+  | some p => if Rules.ifaceParentPrecheck then do let _ ← findNode p; pure () else pure ()
+  | none => pure ()
   addGNode ⟨.connectionPoint, id, name, t, dictUpdate [("StitchNode", "false")] kw⟩
   match parent with
   | some p => addEdge p .connects id
@@ -280,6 +284,17 @@ def linkNew (fl : Flavour) (c : Nat) (name : String) (nid : Option Nid) (ltype :
   let layer ← need (lookupD Rules.linkLayer t) .key
   let kw ← ofExcept (validateProps props)
   let base : Props := [("StitchNode", "false"), ("Layer", layer)] ++ (match tech with | some x => [("Technology", x)] | none => [])
+  -- add_network_link_sliver
+  if Rules.linkPrecheck then do
+    forEach l (fun i => match i with           -- `list(interfaces)` evaluates the caller's generator
+      | .bogus => raise .attr
+      | .iface _ _ => pure ())
+    forEach l (fun i => match i with
+      | .bogus => pure ()
+      | .iface iid _ => do
+          let cnt ← read (fun (s : Topo) => (s.nodes.filter (fun n => n.nid == iid && n.cls == .connectionPoint)).length)
+          M.guard (cnt == 1) .query)
+  else pure ()
   addGNode ⟨.link, id, name, t, dictUpdate base kw⟩
   forEach l (fun i => match i with
     | .bogus => raise .attr
@@ -550,26 +565,33 @@ def suffixId (nid : Option Nid) (suf : String) : Option Nid :=
   | some (.gen n) => some (.gen n)      -- not reachable: a caller cannot supply a library id
   | none => none
 
+/-- the `try: … except Exception: remove the node with everything under it; raise` of the composites
+(absent from the code when `Rules.compositeRollback` is false) -/
+def composite (node : Nid) (body : M Topo Unit) : M Topo Unit :=
+  if Rules.compositeRollback then
+    tryCatch body (fun _ => true) (fun e => do removeNodeGraph node; raise e)
+  else body
+
 /-- `Topology.add_facility` -/
 def addFacility (fl : Flavour) (c : Nat) (name : String) (nid : Option Nid) (site : Option String)
     (nstype : Option String) (nsprops : List PropArg)
     (ifs : Option (List (String × List PropArg))) (kw : List PropArg) : M Topo Nid := do
   let (facn, c1) ← addNode fl c ⟨name, nid, site, some "Facility", []⟩
   let nsid := suffixId nid "-ns"
-  let (facs, _) ← nodeAddService fl c1 facn ⟨name ++ "-ns", nsid, nstype, none, none, nsprops, []⟩
-  let c2 := (pick nsid c1).2
-  match ifs with
-  | none => do
-      let _ ← nsAddInterface fl c2 facs [] (name ++ "-int") (suffixId nid "-int") (some "FacilityPort") kw
-      pure ()
-  | some l =>
-      let rec go : List (String × List PropArg) → Nat → Nat → M Topo Unit
-        | [], _, _ => pure ()
-        | (iname, ip) :: rest, k, cc => do
-            let idx := if Rules.facIndexReset then 0 else k
-            let (_, cc') ← nsAddInterface fl cc facs [] iname (suffixId nid ("-int" ++ toString idx)) (some "FacilityPort") ip
-            go rest (k + 1) cc'
-      go l 0 c2
+  let rec go (facs : Nid) : List (String × List PropArg) → Nat → Nat → M Topo Unit
+    | [], _, _ => pure ()
+    | (iname, ip) :: rest, k, cc => do
+        let idx := if Rules.facIndexReset then 0 else k
+        let (_, cc') ← nsAddInterface fl cc facs [] iname (suffixId nid ("-int" ++ toString idx)) (some "FacilityPort") ip
+        go facs rest (k + 1) cc'
+  composite facn (do
+    let (facs, _) ← nodeAddService fl c1 facn ⟨name ++ "-ns", nsid, nstype, none, none, nsprops, []⟩
+    let c2 := (pick nsid c1).2
+    match ifs with
+    | none => do
+        let _ ← nsAddInterface fl c2 facs [] (name ++ "-int") (suffixId nid "-int") (some "FacilityPort") kw
+        pure ()
+    | some l => go facs l 0 c2)
   pure facn
 
 /-- `Topology.add_switch`; `ports` = per port the (name, id suffix, properties) the loop computes -/
@@ -577,14 +599,15 @@ def addSwitch (fl : Flavour) (c : Nat) (name : String) (nid : Option Nid) (site 
     (nstype : Option String) (nsprops : List PropArg) (ports : List (String × String × List PropArg)) : M Topo Nid := do
   let (sw, c1) ← addNode fl c ⟨name, nid, site, some "Switch", []⟩
   let nsid := suffixId nid "-ns"
-  let (sns, _) ← nodeAddService fl c1 sw ⟨name ++ "-ns", nsid, nstype, none, none, nsprops, []⟩
-  let c2 := (pick nsid c1).2
-  let rec go : List (String × String × List PropArg) → Nat → M Topo Unit
+  let rec go (sns : Nid) : List (String × String × List PropArg) → Nat → M Topo Unit
     | [], _ => pure ()
     | (pname, suf, pp) :: rest, cc => do
         let (_, cc') ← nsAddInterface fl cc sns [] pname (suffixId nid suf) (some "DedicatedPort") pp
-        go rest cc'
-  go ports c2
+        go sns rest cc'
+  composite sw (do
+    let (sns, _) ← nodeAddService fl c1 sw ⟨name ++ "-ns", nsid, nstype, none, none, nsprops, []⟩
+    let c2 := (pick nsid c1).2
+    go sns ports c2)
   pure sw
 
 /-- all interfaces of a node: those of its own services, then those of its components' services -/
